@@ -233,3 +233,38 @@ class Wrap(Config):
 
 
 ALL = [Leaf, Leaf2, Pair, Floats, Node, Top, Bag, CycA, CycB, CycC, Pre, Pre2, Out, Produce, Produce2, Consume, Wrap]
+
+
+class GenTask(Task):
+    """Task whose parameter graph carries generated paths at many positions"""
+
+    __xpmid__ = "xv.gentask"
+
+    x: Param[int] = 0
+    node: Param[Optional[Node]]
+    leaf: Param[Optional[Leaf]]
+    leafs: Param[List[Leaf]] = []
+    d: Param[Dict[str, Leaf]] = {}
+    bag: Param[Optional[Bag]]
+    own: Meta[Path] = field(default_factory=PathGenerator("own.txt"))
+    log: Meta[Path] = field(default_factory=PathGenerator("log.txt"))
+
+    def execute(self):
+        from xv.defs import calls
+
+        calls.record("execute", self)
+
+
+ALL.append(GenTask)
+
+
+def _post_init(self):
+    """Records the call and whether every parameter was already set"""
+    from xv.defs import calls
+
+    names = list(self.__xpmtype__.arguments.keys())
+    calls.record("post_init", self, all_set=all(hasattr(self, n) for n in names))
+
+
+for _cls in ALL:
+    _cls.__post_init__ = _post_init
